@@ -45,7 +45,7 @@
 (* Parameters come from the environment (one .cfg for all types):              *)
 (*   MM_TYPE  SO2 SO3 C1 SE2 SE3 Gal SEK3_2 SEK3_3 B3 B5 BN                     *)
 (*   MM_DEPTH history length         MM_OUT  output file or "-"                *)
-(*   MM_ALPHA full | core            MM_BUG  none | alias | notemp | dofpsum | short | galso3 *)
+(*   MM_ALPHA full | core            MM_BUG  none | alias | notemp | ctornorm | dofpsum | short | galso3 *)
 EXTENDS MapLayout, FiniteSets, TLC, Json, IOUtils
 
 VARIABLES mem, pmem, last, rd, res, hist
@@ -149,7 +149,7 @@ CodeTab == [nm \in SubNames |-> CodeOffOfG(GT, nm)]
 SubOf(g, nm) == SubTab[nm]
 CodeOffOf(g, nm) == CodeTab[nm]
 
-Mutators == {"assign", "massign", "mul", "amul", "bmul", "copyctor", "plus", "setid", "subassign", "subsetid", "submul"}
+Mutators == {"assign", "massign", "mul", "amul", "bmul", "copyctor", "partsctor", "plus", "setid", "subassign", "subsetid", "submul"}
 Observers == {"cast", "const", "const2", "subconst"}
 
 Steps ==
@@ -159,6 +159,11 @@ Steps ==
   \cup {St("amul", p[1], p[2], None, "-", "-") : p \in Pairs}                    \* a = a * b   two view objects over one region)
   \cup {St("bmul", p[1], p[2], None, "-", "-") : p \in Pairs}                    \* a = b * a
   \cup {St("copyctor", p[1], p[2], None, "-", "-") : p \in {q \in ValDsts \X Srcs : ~SamePos(q[1], q[2])}}
+  \* from-parts constructors G(part_1, ..., part_m) (SE2(so2, r2), SE3(so3, r3), Galilei(so3, v, p, t), SE_K_3(so3, p...),
+  \* Bundle(parts...)): a value object built from the parts of s, handed over as sub-part views ("view": Map / const-Map /
+  \* views into a value) or as value objects of the part types ("plain"); documented as plain copies
+  \cup (IF Len(Top) = 0 THEN {}
+        ELSE {St("partsctor", p[1], p[2], None, "-", x) : p \in {q \in ValDsts \X Srcs : Disj(q[1], q[2])}, x \in {"view", "plain"}})
   \cup {St("plus", d, None, None, "-", "-") : d \in Dsts}
   \cup {St("setid", d, None, None, "-", "-") : d \in Dsts}
   \cup {St("cast", None, s, None, "-", "-") : s \in Srcs}
@@ -184,7 +189,7 @@ OpLen(st) == IF IsSubOp(st) THEN SubOf(GT, st.i).len ELSE R
 
 \* operand coefficient tuples, in the order (destination-as-operand, source, other)
 SpecReads(st, m) ==
-  CASE st.op \in {"assign", "massign", "copyctor"} -> <<Rd(m, SrcLo(st, st.s), R)>>
+  CASE st.op \in {"assign", "massign", "copyctor", "partsctor"} -> <<Rd(m, SrcLo(st, st.s), R)>>
     [] st.op \in {"mul", "amul"} -> <<Rd(m, DestLo(st), R), Rd(m, SrcLo(st, st.s), R)>>
     [] st.op = "bmul" -> <<Rd(m, SrcLo(st, st.s), R), Rd(m, DestLo(st), R)>>
     [] st.op = "plus" -> <<Rd(m, DestLo(st), R)>>
@@ -198,7 +203,7 @@ SpecReads(st, m) ==
 
 \* new contents of the destination range
 SpecVals(st, m, n) ==
-  CASE st.op \in {"assign", "massign", "copyctor"} -> Rd(m, SrcLo(st, st.s), R)        \* verbatim
+  CASE st.op \in {"assign", "massign", "copyctor", "partsctor"} -> Rd(m, SrcLo(st, st.s), R)   \* verbatim (the parts tile the layout)
     [] st.op \in {"mul", "amul", "bmul", "plus", "setid"} -> Fresh(st.op, n, R)
     [] st.op = "subassign" -> IF st.x = "part" THEN Rd(m, SrcLo(st, st.s), OpLen(st)) ELSE Fresh("fresh", n, OpLen(st))
     [] st.op \in {"subsetid", "submul"} -> Fresh(st.op, n, OpLen(st))
@@ -221,6 +226,12 @@ CopyLoop(m, dp, sp, j, n) == IF j >= n THEN m ELSE CopyLoop([m EXCEPT ![dp + j] 
 RECURSIVE StoreLoop(_, _, _, _)
 StoreLoop(m, dp, tmp, j) == IF j > Len(tmp) THEN m ELSE StoreLoop([m EXCEPT ![dp + j - 1] = tmp[j]], dp, tmp, j + 1)
 
+\* part-wise construction: one coefficient loop per top-level part, at the code's offsets on both sides
+RECURSIVE PartsLoop(_, _, _, _)
+PartsLoop(m, da, sa, i) ==
+  IF i > Len(Top) THEN m
+  ELSE PartsLoop(CopyLoop(m, da + CodeTab[Top[i].nm], sa + CodeTab[Top[i].nm], 0, Top[i].len), da, sa, i + 1)
+
 ImplStep(st, m, n) ==
   LET len == OpLen(st)
       da == IF st.d.k = "none" THEN 0 ELSE Addr(st.d, st)
@@ -230,6 +241,12 @@ ImplStep(st, m, n) ==
       noRes == <<>>
   IN CASE st.op \in {"assign", "massign", "copyctor"} ->
             [mem |-> CopyLoop(m, da, sa, 0, cplen), rd |-> <<Rd(m, sa, len)>>, res |-> noRes]
+       [] st.op = "partsctor" ->
+            \* Base::part_i() = arg_i for every top-level part, each at the accessor's offset; seeded variant "ctornorm":
+            \* the rotation part is renormalised afterwards
+            LET copied == PartsLoop(m, da, sa, 1)
+                q == IF Bug = "ctornorm" /\ "so3" \in SubNames THEN SubTab["so3"] ELSE [off |-> 0, len |-> 0]
+            IN [mem |-> StoreLoop(copied, da + q.off, Fresh("norm", n, q.len), 1), rd |-> <<Rd(m, sa, R)>>, res |-> noRes]
        [] st.op = "subassign" ->
             IF st.x = "part" THEN [mem |-> CopyLoop(m, da, sa, 0, len), rd |-> <<Rd(m, sa, len)>>, res |-> noRes]
             ELSE [mem |-> StoreLoop(m, da, Fresh("fresh", n, len), 1), rd |-> <<>>, res |-> noRes]
